@@ -73,9 +73,43 @@ class Truncated(Exception):
     pass
 
 
+def untracked_fields(prog):
+    """Integer (non-enum, non-pointer) fields that somewhere receive a value
+    that is not a constant: counters, offsets, sizes.  They are kept at TOP so
+    that the abstract state space stays small; flags and enum-typed fields
+    (only ever assigned constants / enumerators / enum-returning calls) stay
+    tracked."""
+    out = set()
+    for f in prog.all_funcs():
+        for b, i, st in f.all_stmts():
+            for x in ir.walk(st):
+                if x.get("k") != "asg":
+                    continue
+                l = x["l"]
+                if not (isinstance(l, dict) and l.get("k") == "mem"):
+                    continue
+                if l.get("pd") or l.get("r") or l.get("en"):
+                    continue
+                key = (l.get("rec"), l["f"])
+                if x["op"] != "=":
+                    out.add(key)
+                    continue
+                r = ir.strip(x.get("r"))
+                if not isinstance(r, dict):
+                    continue
+                if r.get("k") == "int":
+                    continue
+                if r.get("k") == "call" and r.get("en"):
+                    continue
+                if r.get("k") == "cond" and all(ir.is_const(r.get(q)) for q in ("t", "f")):
+                    continue
+                out.add(key)
+    return out
+
+
 class Interp:
     MAX_DEPTH = 14
-    FUEL = 400000
+    FUEL = 20000000
 
     def __init__(self, prog, stubs=None):
         self.prog = prog
@@ -90,6 +124,7 @@ class Interp:
         self.on_write = None    # hook(interp, state, loc, compound) -> state
         self.trace_calls = None
         self.fn_cache = {}
+        self.untracked = untracked_fields(prog)
 
     # ------------------------------------------------------------------
     def report(self, rule, key, message, where="", witness=None):
@@ -532,10 +567,13 @@ class Interp:
                 for st3 in self.assign_init(loc, r, st2, fr):
                     yield (("agg", loc[0], loc[1]), st3)
             return
+        wide = l.get("k") == "mem" and (l.get("rec"), l["f"]) in self.untracked
         for v, st2 in self.eval(r, st, fr):
             if v[0] == "throw":
                 yield (v, st2)
                 continue
+            if wide and v[0] in ("int", "nz"):
+                v = TOP
             for loc, st3 in self.lval(l, st2, fr):
                 if loc is None:
                     yield (v, st3)
@@ -685,9 +723,10 @@ class Interp:
             return
         g = self.prog.resolve(name, fr.fn) if fr is not None else self.prog.func(name, required=False)
         if g is None:
-            g = self.prog.func(name, required=False) if "::" in name or True else None
-            if g is not None and g.static and fr is not None and g.tu != fr.fn.tu and not g.cxx:
-                g = None
+            # a static function of another unit reached through a pointer
+            cands = self.prog.funcs.get(name) or []
+            if len(cands) == 1:
+                g = cands[0]
         if g is None:
             h = self.stubs.get("@external")
             if h:
@@ -695,7 +734,54 @@ class Interp:
             else:
                 yield (TOP, st)
             return
+        if self.returns_record(g) and self.is_pure(g):
+            # a side-effect-free helper that builds a record by value (TIFF
+            # tags, headers): its result is an unknown aggregate
+            yield (TOP, st)
+            return
         yield from self.call_function(g, vals, st, fr, n)
+
+    @staticmethod
+    def returns_record(g):
+        r = g.d.get("ret") or {}
+        return bool(r.get("r")) and not r.get("pd")
+
+    def is_pure(self, g, _stack=None):
+        key = (g.tu, g.name)
+        if key in self.fn_cache:
+            return self.fn_cache[key]
+        _stack = _stack or set()
+        if key in _stack:
+            return True
+        _stack = _stack | {key}
+        pure = True
+        for b, i, s in g.all_stmts():
+            for x in ir.walk(s):
+                k = x.get("k")
+                if k in ("new", "delete", "throw"):
+                    pure = False
+                elif k == "asg":
+                    root, chain = ir.field_chain(x["l"])
+                    l = x["l"]
+                    bad = False
+                    for y in ir.walk(l):
+                        if y.get("k") in ("deref", "gvar", "this") or (y.get("k") == "mem" and y.get("arrow")):
+                            bad = True
+                        if y.get("k") == "idx" and not str(y["b"].get("t", "")).endswith("]"):
+                            bad = True
+                    if bad:
+                        pure = False
+                elif k in ("call", "construct"):
+                    nm = x.get("fn")
+                    h = self.prog.resolve(nm, g) if nm else None
+                    if nm in self.stubs or h is None or not self.is_pure(h, _stack):
+                        pure = False
+                if not pure:
+                    break
+            if not pure:
+                break
+        self.fn_cache[key] = pure
+        return pure
 
     # ------------------------------------------------------------------
     def call_function(self, g, vals, st, fr, callnode=None):
@@ -706,7 +792,9 @@ class Interp:
             yield (TOP, st)
             return
         # recursion: same function already active with the same store
-        sig = (g.name, tuple(vals), st.key())
+        heap = frozenset((k, v) for k, v in st.m.items()
+                         if not (isinstance(k[0], str) and k[0].startswith("L") and k[0][1:].isdigit()))
+        sig = (g.name, tuple(vals), heap)
         for (nm, s) in self.active:
             if nm == g.name and s == sig:
                 self.report("REC-UNBOUNDED", "REC-UNBOUNDED|%s" % ">".join(self.stack + [g.short]),
@@ -876,6 +964,8 @@ class Interp:
         n = ir.strip(n)
         if not isinstance(n, dict):
             return None
+        if n.get("k") == "mem" and (n.get("rec"), n["f"]) in self.untracked:
+            return None  # counters / sizes are never refined
         if n.get("k") == "asg" and n.get("op") == "=":
             return self.simple_loc(n["l"], s, fr)
         if n.get("k") not in ("var", "gvar", "mem", "deref", "idx"):
@@ -1007,7 +1097,10 @@ class Interp:
                 elif v is None:
                     yield (TOP, st, None)
                 else:
+                    wide = (fr.fn.d.get("record"), stmt["f"]) in self.untracked
                     for val, s2 in self.eval(v, st, fr):
+                        if wide and val[0] in ("int", "nz"):
+                            val = TOP
                         yield (val, s2.set(loc, val), None)
             else:
                 if isinstance(v, dict) and v.get("k") == "init":
@@ -1037,10 +1130,21 @@ class Interp:
 # ---------------------------------------------------------------------------
 # harness: exhaustive exploration of inter-call states
 
+ARG_OBJS = ("obj:arg", "obj:arg2", "obj:frames")
+
+
+def fresh_args(st):
+    """The client's argument objects carry no information from one call to
+    the next: reset them to unknown."""
+    st = st.delete_where(lambda k: k[0] in ARG_OBJS)
+    return st.update({(o, ("<t>",)): 1 for o in ARG_OBJS})
+
+
 def canon(st):
     """Inter-call state: locals and temporaries of finished calls dropped."""
-    return st.delete_where(lambda k: isinstance(k[0], str) and
-                           (k[0].startswith("L") and k[0][1:].isdigit() or k[0] == "ret"))
+    st = st.delete_where(lambda k: isinstance(k[0], str) and
+                         (k[0].startswith("L") and k[0][1:].isdigit() or k[0] == "ret"))
+    return fresh_args(st)
 
 
 class Explorer:
